@@ -166,12 +166,17 @@ def find_in_scope(
     ):
         from .function import Function
 
+        # Members of an interface block without a generic name take the default
+        # accessibility of the scope that holds the block
+        def_vis = local_scope.def_vis
+        if local_scope.name.startswith("#GEN_INT") and local_scope.parent is not None:
+            def_vis = local_scope.parent.def_vis
         for child in local_scope.get_children():
             if child.name.startswith("#GEN_INT"):
                 tmp_var = check_scope(child, var_name_lower, filter_public)
                 if tmp_var is not None:
                     return tmp_var
-            is_private = child.vis < 0 or (local_scope.def_vis < 0 and child.vis <= 0)
+            is_private = child.vis < 0 or (def_vis < 0 and child.vis <= 0)
             if filter_public and is_private:
                 continue
             if child.name.lower() == var_name_lower:
